@@ -247,6 +247,58 @@ def clockOp (t0 e : String) (msgs : List String) : String :=
     | none => "bad-op"
   | _, _ => "bad-op"
 
+/-! ### `select`: which key signs for which envelope sender, and in whose name (round 9)
+
+`select <y|n> <selector> <r|e> | <domain>=<normal form> … | <name>=<normal form|!>=<A-label form|!> … | <u|a>:<from|->:<e|n|domain> …`:
+one modifier instance (`sign_subdomains` on / off, the configured domains, default `key_path`
+template on an empty directory) and a list of senders (`u` = message with SMTPUTF8; third part =
+result of `address.Split`: error, no domain, the domain).  The table is the oracle (`dns.ForLookup`,
+`idna.ToASCII`; `!` = error).  Per sender: `err` | `unsigned` | `signed d= s= i= key=<the entry of
+signers whose key signed>`. -/
+
+def optHex? (s : String) : Option (Option Bytes) :=
+  if s == "!" then some none else if s == "-" then some (some []) else (unhexBytes? s).map some
+
+def tabEntry? (s : String) : Option (Bytes × Option Bytes × Option Bytes) :=
+  match s.splitOn "=" with
+  | [n, a, b] =>
+    match unhexBytes? n, optHex? a, optHex? b with
+    | some n, some a, some b => some (n, a, b)
+    | _, _, _ => none
+  | _ => none
+
+open MaddyVerif.DkimKeys in
+def selSender? (s : String) : Option (Bool × From) :=
+  match s.splitOn ":" with
+  | [u, _, sp] =>
+    if u != "u" && u != "a" then none else
+    if sp == "e" then some (u == "u", .err) else
+    if sp == "n" then some (u == "u", .none) else
+    (unhexBytes? sp).map (fun d => (u == "u", .dom d))
+  | _ => none
+
+def hexOrDash (b : Bytes) : String := if b.isEmpty then "-" else hexBytes b
+
+open MaddyVerif.DkimKeys in
+def selectOp (sub sel : String) (doms tab snd : List String) : String :=
+  if sub != "y" && sub != "n" then "bad-op" else
+  match unhexBytes? sel, doms.mapM domPair?, tab.mapM tabEntry?, snd.mapM selSender? with
+  | some s, some ds, some tb, some ss =>
+    let O : Oracle := ⟨fun x => (tb.lookup x).bind (·.1), fun x => (tb.lookup x).bind (·.2)⟩
+    let r := init ⟨phDomain ++ [95] ++ phSelector ++ dotKey, s, .ed25519, ds⟩ [] 0
+    let line := fun (p : Bool × From) =>
+      match selectKey O (ds.map (·.1)) (sub == "y") r.signers s p.1 p.2 with
+      | .splitErr => "err"
+      | .panic => "panic"
+      | .unsigned _ => "unsigned"
+      | .signed d s' id _ =>
+        let key := match r.signers.find? (fun e => e.2.1 == id) with
+          | some e => hexOrDash e.1
+          | none => "?"
+        s!"signed d={hexOrDash d} s={hexOrDash s'} i={hexOrDash (64 :: d)} key={key}"
+    " ; ".intercalate (ss.map line)
+  | _, _, _, _ => "bad-op"
+
 def splitHash (toks : List String) : List String × List String :=
   (toks.takeWhile (· != "#"), (toks.dropWhile (· != "#")).drop 1)
 
@@ -265,6 +317,7 @@ def handle (toks : List String) : String :=
   match c08groups toks with
   | [["keys", tmpl, sel], doms, steps] => keysOp tmpl sel doms steps
   | [["clock", t0, e, _, _, _, _], msgs, _, _] => clockOp t0 e msgs
+  | [["select", sub, sel, _], doms, tab, snd] => selectOp sub sel doms tab snd
   | ["fts" :: ov, sg, fields] =>
     match bytesList? ov, bytesList? sg, bytesList? fields with
     | some ov, some sg, some fields => showList (fieldsToSign ov sg (fields.map gmKey))
